@@ -8,7 +8,7 @@
    differential tie (and say so). *)
 From Coq Require Import NArith List Bool String.
 Import ListNotations.
-From Molli Require Import Model.UKV Model.MiniPy Gen.UKVCode Proofs.UKVBase Proofs.UKVCode.
+From Molli Require Import Model.UKV Model.MiniPy Gen.UKVCode Proofs.UKVBase Proofs.UKV Proofs.UKVCode Proofs.UKVEffects.
 Local Open Scope string_scope.
 Local Open Scope N_scope.
 
@@ -101,6 +101,33 @@ Theorem C02_code_open : forall fuel s h m h1 h2 b0 rest,
 Proof. exact open_code. Qed.
 Print Assumptions C02_code_open.
 
+(* ---- the effects of the code on the file, and the crash model of C03 ----
+   [effects] lists, in program order, every write (with its position) and truncate a run performs; replaying them
+   reproduces the file the run ends with, for every statement and every state. *)
+Theorem C03_code_effects_replay : forall fuel c s, replay (file s) (effects fuel c s) = file (fst (exec fuel c s)).
+Proof. exact effects_replay. Qed.
+Print Assumptions C03_code_effects_replay.
+
+(* put of a fresh key of legal size through an open append handle: writes only, contiguous from the handle's end of
+   file, appending exactly the encoded block -- whatever the number of write calls the source uses *)
+Theorem C03_code_put_appends : forall fuel s h k v e,
+  Rep s h -> lookup_env (locals s) "key" = Some (VBytes k) -> lookup_env (locals s) "value" = Some (VBytes v) ->
+  closed h = false -> md h = MA -> lookup (toc h) k = None -> wfb k v = true -> eof h = Some e ->
+  appended e (effects fuel put_prog s) = Some (encb k v).
+Proof. exact put_effects. Qed.
+Print Assumptions C03_code_put_appends.
+
+(* hence every crash image of a put (any number of its complete writes, then any proper prefix of the next) is the
+   file as it was followed by a prefix of the encoded block: exactly the images C03_crash_reopen quantifies over
+   (crash_image H rs ps n = H ++ blocks rs ++ firstn n (blocks ps)), derived from the translated source *)
+Theorem C03_code_put_crash_images : forall fuel s h k v img,
+  Rep s h -> lookup_env (locals s) "key" = Some (VBytes k) -> lookup_env (locals s) "value" = Some (VBytes v) ->
+  closed h = false -> md h = MA -> lookup (toc h) k = None -> wfb k v = true -> eof h = Some (len (file s)) ->
+  is_image (file s) (effects fuel put_prog s) img ->
+  exists n, img = (file s ++ firstn n (encb k v))%list.
+Proof. exact put_crash_images. Qed.
+Print Assumptions C03_code_put_crash_images.
+
 (* Non-vacuity: the translated put and get RUN, on a concrete object state, and give what the model gives. *)
 Definition ex_attrs : env :=
   env_of [("_toc", VToc []); ("_last", VNone); ("_eof", VInt 32); ("_closed", VBool false); ("mode", VStr "a")].
@@ -108,5 +135,6 @@ Definition ex_state : state := mkst (repeat 0 32) (mks 0 true false) ex_attrs (e
 Example C02_code_runs :
   let '(s1, o1) := exec 10 put_prog ex_state in
   o1 = ONormal /\ file s1 = (repeat 0 32 ++ [1; 0; 0; 0; 2; 7; 1; 2])%list /\
-  snd (exec 10 get_prog (mkst (file s1) (strm s1) (attrs s1) (env_of [("key", VBytes [7])]))) = OReturn (VBytes [1; 2]).
+  snd (exec 10 get_prog (mkst (file s1) (strm s1) (attrs s1) (env_of [("key", VBytes [7])]))) = OReturn (VBytes [1; 2]) /\
+  appended 32 (effects 10 put_prog ex_state) = Some [1; 0; 0; 0; 2; 7; 1; 2].
 Proof. vm_compute. repeat split; reflexivity. Qed.
